@@ -82,6 +82,9 @@ size_t xv_keep;            /* ghost offset whose byte the ut_realloc model prese
 _Bool xv_blocked;
 
 #define XV_OFF_MAX (1L << 50)
+/* private part of a socket (what the TO<X>(s) statement-expression macros of /repo compute), usable inside clauses;
+ * loop contracts use it so that they do not depend on the names of locals of the function they sit in */
+#define XV_PRIV(s, T) ((struct T *)((uint8_t *)(s) + sizeof(struct xcm_socket)))
 
 #ifdef XV_CBMC
 /* C zero-initialises objects of static storage duration; ghost state must instead be ARBITRARY at the start of every
